@@ -106,10 +106,21 @@ def check(case, ctx):
     names_per = [set(n for _, n in fields_of(s)) for s in specs]
     shared = len(specs) >= 2 and any(names_per[i] & names_per[j] for i in range(len(specs)) for j in range(i))
 
+    def desc_view(r):
+        """Everything a record type says about itself (several of these views are cached separately)."""
+        d = r._desc
+        return (d.name, tuple(d.get_field_tuples()), tuple(d.fields.keys()), tuple(f.name for f in d.get_all_fields().values()),
+                tuple((f.typename, f.name) for f in d.getfields("string")), tuple(d.recordType.__slots__), d.identifier)
+
+    desc_before = [desc_view(r) for r in recs]
+
     def originals_unchanged():
         for i, r in enumerate(recs):
             if observe(r) != before[i]:
                 raise Violation(op + "/original-modified", "record %d changed: %s" % (i, diff(before[i], observe(r))))
+            if desc_view(r) != desc_before[i]:
+                raise Violation(op + "/original-type-modified", "the record type of record %d changed: %s"
+                                % (i, diff(desc_before[i], desc_view(r))))
 
     if op in ("extend", "merge"):
         replace, rename = case["replace"], case["rename"]
@@ -358,6 +369,10 @@ def check(case, ctx):
                                 detail="grouped" if grouped else None)
         if out._desc.name != subject_name:
             raise Violation("rewriter/name", "name changed to %r" % out._desc.name)
+        again = impl(RecordFieldRewriter(fields, exclude).rewrite, rec)
+        if not again.ok or observe(again.value) != observe(out):
+            raise Violation("rewriter/second-projection-differs", "the same projection by a second rewriter gives %r, the "
+                            "first gave %r" % (again, out))
         for m in ("_source", "_classification", "_generated"):
             if observe(getattr(out, m)) != observe(getattr(rec, m)):
                 raise Violation("rewriter/metadata", "%s changed: %r, was %r" % (m, getattr(out, m), getattr(rec, m)),
